@@ -246,6 +246,21 @@ func c18RoundTrip(w *World) {
 					}
 				}
 			}
+			if class == "contract_code" && d.New == nil && len(d.Key) == 33 {
+				// code is stored by hash and shared: the code of a destroyed contract stays behind unreferenced. Only code
+				// that some account's code hash still points to is state.
+				referenced := false
+				for _, ch := range vp.CodeHash {
+					if bytes.Equal(ch, d.Key[1:]) {
+						referenced = true
+						break
+					}
+				}
+				if !referenced {
+					r.Cross["c18:unreferenced_code_not_exported"]++
+					continue
+				}
+			}
 			if strings.HasPrefix(class, "-") {
 				r.Cross["c18:diff"+class]++
 				continue
